@@ -33,6 +33,7 @@ type item struct {
 	files   []aspgen.File
 	fresh   *freshProbe // stream "fresh"
 	sortp   *sortProbe  // stream "sortkey"
+	used    map[string]int // stream "pure2": the constructs of the enlarged fragment the program uses
 	refused bool        // the evaluator model refuses part of the program (dict.copy, sorted(key=)): a refusal is no disagreement
 }
 
@@ -211,7 +212,7 @@ func coqPyObs(v any) string {
 func main() {
 	gologging.SetLevel(gologging.CRITICAL, "plz")
 	lib.Main("C16", func(c *lib.Ctx) {
-		c.Model("From PlzV Require Import Model.C16_Syntax Model.C16_Eval Model.C16 Model.C16_Pure Model.C16_Sort.", "C16_Sort.case", "C16_Sort.check")
+		c.Model("From PlzV Require Import Model.C16_Syntax Model.C16_Eval Model.C16 Model.C16_Pure Model.C16_Sort Model.C16_Pure2.", "C16_Pure2.case", "C16_Pure2.check")
 		c.Rule("programs of the BUILD language generated as ASTs (typed trees flattened with only the parentheses CPython needs, so chains of 3-6 operators of mixed " +
 			"precedence; negative/large ints, non-ASCII strings, lists, dicts, comprehensions with filters, functions with defaults, for/if, builtins len sorted reversed " +
 			"range enumerate zip any all min max str join split keys), printed once, the text parsed and interpreted by the real asp (printer validated: the real parser's " +
@@ -224,6 +225,10 @@ func main() {
 			"keys (ints by x % m / x // m / constant, strings by len / first rune, pairs by first component; 2-12 elements, each call also an SSort model case with the " +
 			"keys the real interpreter computed; 2-12 and 13-40 elements, the latter being where sort.Slice - replaced by sort.SliceStable in /repo 62283f2 - was pdqsort); every single-file program is ALSO a PPure case: the Go verdict on membership in the fragment must equal Coq's in_pure_subset on the " +
 			"same AST, and whenever the reference run pure_run succeeds the real interpreter must have run without error, agreed with python3, and printed its globals. " +
+			"and a stream aimed at the ENLARGED pure fragment of Model/C16_Pure2.v (def with positional / keyword / scalar-default arguments, recursion, calls as statements, " +
+			"comprehensions with and without filter over lists and range(), for over range() and over enumerate / zip with two names, len str bool any all reversed sorted min max, " +
+			"dict literals with ascending - sometimes not - keys, index, in, get keys values items, join split startswith endswith upper lower): every single-file program is ALSO a " +
+			"P2Pure case (Go verdict on in_pure2_subset against Coq's; whenever pure2_run succeeds the real interpreter ran without error, agreed with python3 and printed the reference globals). " +
 			"distinct = distinct program texts; non-trivial = a chain of >= 2 operators of different precedence, or a list/dict/function/loop")
 
 		var items []*item
@@ -256,6 +261,11 @@ func main() {
 
 		for i := 0; i < nPure; i++ {
 			add(&item{name: fmt.Sprintf("pure:%d", i), stream: "pure", build: PureProgram(c.Rng.Fork())})
+		}
+		nPure2 := c.Scale(260, 9000)
+		for i := 0; i < nPure2; i++ {
+			p2, used := Pure2Program(c.Rng.Fork())
+			add(&item{name: fmt.Sprintf("pure2:%d", i), stream: "pure2", build: p2, used: used})
 		}
 		nFresh, nSort, nSortBig := c.Scale(120, 5000), c.Scale(80, 4000), c.Scale(16, 800)
 		for i := 0; i < nFresh; i++ {
@@ -510,7 +520,7 @@ func main() {
 				continue
 			}
 			maxOps, classes := chainStats(append(append(aspgen.Prog{}, it.defs...), it.build...))
-			nontrivial := maxOps >= 2 || it.stream == "program" || it.stream == "defs" || it.stream == "pure" || it.stream == "fresh" || it.stream == "sortkey"
+			nontrivial := maxOps >= 2 || it.stream == "program" || it.stream == "defs" || it.stream == "pure" || it.stream == "pure2" || it.stream == "fresh" || it.stream == "sortkey"
 			c.HistN("max_chain_ops", maxOps)
 			for _, cl := range classes {
 				c.Hist("chain_class", cl)
@@ -540,7 +550,7 @@ func main() {
 							continue
 						}
 						sjs["name"], sjs["src"] = it.name+":"+sc.name, it.src
-						c.Case(term, sjs, "sort:"+sc.name+":"+it.pysrc, true)
+						c.Case(lib.App("P2Base", term), sjs, "sort:"+sc.name+":"+it.pysrc, true)
 					}
 				}
 			}
@@ -551,14 +561,14 @@ func main() {
 				oe, ok2 := obsZDict(ap[u.right])
 				or, ok3 := obsZDict(ap["r"])
 				if ok1 && ok2 && ok3 {
-					c.Case(lib.App("SUnion", zkvCoq(u.ld), zkvCoq(u.rd), lib.Str(u.k), lib.Z(int64(u.v)), lib.Bool(u.intoResult), od, oe, or),
+					c.Case(lib.App("P2Base", lib.App("SUnion", zkvCoq(u.ld), zkvCoq(u.rd), lib.Str(u.k), lib.Z(int64(u.v)), lib.Bool(u.intoResult), od, oe, or)),
 						map[string]any{"name": it.name + ":union", "src": it.src, "asp": it.asp.Final}, "union:"+it.pysrc, true)
 				} else {
 					c.Fail("union-probe-not-readable", "the globals of a dict union probe are not dicts of ints", map[string]any{"src": it.src, "asp": it.asp.Final})
 				}
 			}
 			if it.sortp == nil {
-				c.Case(lib.App("SBase", lib.App("PBase", lib.App("CAsp", lib.Bool(it.loose), defs, lib.List([]string{aspgen.CoqProg(it.build)}), lib.List([]string{coqOutcome(it.asp)})))),
+				c.Case(lib.App("P2Base", lib.App("SBase", lib.App("PBase", lib.App("CAsp", lib.Bool(it.loose), defs, lib.List([]string{aspgen.CoqProg(it.build)}), lib.List([]string{coqOutcome(it.asp)}))))),
 					js, it.pysrc, nontrivial)
 			}
 			if it.defs == nil && !hasOctal(it.build) { // (an octal literal: the AST holds asp's reading of the digits, python3 reads another number)
@@ -570,7 +580,7 @@ func main() {
 				if aspOK {
 					globals = aspgen.CoqGlobals(it.asp.Final)
 				}
-				c.Case(lib.App("SBase", lib.App("PPure", lib.Bool(flag), aspgen.CoqProg(it.build), lib.Bool(aspOK), lib.Bool(agree), globals)),
+				c.Case(lib.App("P2Base", lib.App("SBase", lib.App("PPure", lib.Bool(flag), aspgen.CoqProg(it.build), lib.Bool(aspOK), lib.Bool(agree), globals))),
 					map[string]any{"name": it.name + ":pure", "src": it.src, "in_pure_subset": flag, "asp_ok": aspOK, "agree": agree}, "pure:"+it.pysrc, flag && nontrivial)
 				if flag {
 					c.Hist("pure_subset", "in:"+it.verdict)
@@ -579,6 +589,23 @@ func main() {
 					}
 				} else {
 					c.Hist("pure_subset", "out")
+				}
+				// the same for the ENLARGED fragment of Model/C16_Pure2.v (functions, comprehensions, range, builtins, dicts, methods)
+				flag2 := inPure2Subset(it.build)
+				c.Case(lib.App("P2Pure", lib.Bool(flag2), aspgen.CoqProg(it.build), lib.Bool(aspOK), lib.Bool(agree), globals),
+					map[string]any{"name": it.name + ":pure2", "src": it.src, "in_pure2_subset": flag2, "asp_ok": aspOK, "agree": agree}, "pure2:"+it.pysrc, flag2 && nontrivial)
+				if flag2 {
+					c.Hist("pure2_subset", "in:"+it.verdict)
+					if !flag {
+						c.Hist("pure2_subset_beyond_pure", it.stream+":"+it.verdict)
+					}
+				} else {
+					c.Hist("pure2_subset", "out")
+				}
+				for k := range it.used {
+					if flag2 {
+						c.Hist("pure2_construct", k+":"+it.verdict)
+					}
 				}
 			}
 			// the reference model against python3 (same AST, CPython's semantics)
@@ -591,7 +618,7 @@ func main() {
 					}
 					obs = "(OGlobals [] " + lib.List(kv) + ")"
 				}
-				c.Case(lib.App("SBase", lib.App("PBase", lib.App("CPy", lib.Bool(it.loose || strings.Contains(it.src, " / ")), aspgen.CoqProg(it.build), obs))),
+				c.Case(lib.App("P2Base", lib.App("SBase", lib.App("PBase", lib.App("CPy", lib.Bool(it.loose || strings.Contains(it.src, " / ")), aspgen.CoqProg(it.build), obs)))),
 					map[string]any{"name": it.name + ":py", "src": it.src, "python": it.py}, "py:"+it.pysrc, false)
 			}
 		}
